@@ -3,6 +3,7 @@ package main
 // Symbolic state, merging, heap access through pointer shapes.
 
 import (
+	"reflect"
 	"fmt"
 	"strings"
 	"go/types"
@@ -27,11 +28,15 @@ type State struct {
 	// GhostLoopNames: when non-nil, only records of these call names ("*" = any)
 	// are unknown when absent; the others are still "not called"
 	GhostLoopNames map[string]bool
+	// GhostMemo: one value per unknown absent record, shared by all states
+	// derived from the point where the records became unknown (so that two
+	// clauses reading the same record speak about the same value)
+	GhostMemo map[string]Term
 	Gen    int // heap generation: keys absent from Heap denote the generation's initial constant
 }
 
 func (s *State) clone() *State {
-	n := &State{Reach: s.Reach, Alloc: s.Alloc, Gen: s.Gen, GhostUnknown: s.GhostUnknown, GhostLoopNames: s.GhostLoopNames}
+	n := &State{Reach: s.Reach, Alloc: s.Alloc, Gen: s.Gen, GhostUnknown: s.GhostUnknown, GhostLoopNames: s.GhostLoopNames, GhostMemo: s.GhostMemo}
 	n.Heap = make(map[string]Term, len(s.Heap))
 	for k, v := range s.Heap {
 		n.Heap[k] = v
@@ -201,6 +206,18 @@ func (c *Ctx) mergeStates(ins []*State) *State {
 		if !all {
 			out.GhostLoopNames = names
 		}
+		// the memo survives a join only if every incoming state shares it
+		same := true
+		for _, s := range ins {
+			if !sameMap(s.GhostMemo, ins[0].GhostMemo) {
+				same = false
+			}
+		}
+		if same && ins[0].GhostMemo != nil {
+			out.GhostMemo = ins[0].GhostMemo
+		} else {
+			out.GhostMemo = map[string]Term{}
+		}
 	}
 	if len(gk) > 0 {
 		out.Ghost = map[string]Term{}
@@ -223,7 +240,7 @@ func (c *Ctx) mergeStates(ins []*State) *State {
 					} else {
 						v = TFalse
 						if s.ghostAbsentUnknown(k) {
-							v = c.fresh("ghostunk", SBool)
+							v = s.ghostUnknownVal(c, k)
 						}
 					}
 				}
@@ -459,6 +476,26 @@ func ghostKeyName(k string) string {
 
 // ghostAbsentUnknown: an absent record with this key is unknown (rather than
 // "not called") in this state.
+func sameMap(a, b map[string]Term) bool {
+	if a == nil || b == nil {
+		return a == nil && b == nil
+	}
+	return reflect.ValueOf(a).Pointer() == reflect.ValueOf(b).Pointer()
+}
+
+// ghostUnknownVal: the value of an absent, unknown record (memoised per havoc point).
+func (s *State) ghostUnknownVal(c *Ctx, key string) Term {
+	if s.GhostMemo == nil {
+		return c.fresh("ghostunk", SBool)
+	}
+	if v, ok := s.GhostMemo[key]; ok {
+		return v
+	}
+	v := c.fresh("ghostunk", SBool)
+	s.GhostMemo[key] = v
+	return v
+}
+
 func (s *State) ghostAbsentUnknown(key string) bool {
 	if !s.GhostUnknown {
 		return false
